@@ -15,7 +15,8 @@ import time
 SETUP = r'''
 from Cython.Build import cythonize
 from setuptools import Extension, setup
-CFLAGS = ["-O1", "-g", "-fno-omit-frame-pointer", "-fsanitize=address", "-shared-libasan"]
+CFLAGS = ["-O1", "-g", "-fno-omit-frame-pointer", "-fsanitize=address", "-fsanitize-recover=address",
+          "-shared-libasan"]
 LDFLAGS = ["-fsanitize=address", "-shared-libasan"]
 R = "aiokafka/record/_crecords/"
 exts = [
@@ -50,6 +51,11 @@ def main():
         return out
 
     shutil.copytree(os.path.join(repo, "aiokafka"), dst, ignore=ignore)
+    # the package __init__ files import the whole client (seconds of start-up under ASan); the
+    # runner only needs aiokafka.errors, aiokafka.codec and aiokafka.record._crecords.*
+    for init in ("__init__.py", os.path.join("record", "__init__.py")):
+        with open(os.path.join(dst, init), "w") as f:
+            f.write("# emptied in the C10 scratch copy (start-up time); the anchored modules are untouched\n")
     with open(os.path.join(work, "setup_c10.py"), "w") as f:
         f.write(SETUP)
     env = dict(os.environ)
